@@ -356,6 +356,24 @@ var stubSets = map[string][]string{
 		arrowPkg + "/array.NewRecordBatch = verifNewRecordBatch",
 		repoPkg + ".emptyBatch = verifEmptyBatch",
 		repoPkg + ".batchBufferSize = verifBatchBufferSize",
+		repoPkg + ".serializeSchema = verifSerializeSchema",
+		repoPkg + ".deserializeSchema = verifDeserializeSchema",
+	},
+	// ghost handlers behind reflect (harness/common/handler.go)
+	"handler": {
+		"reflect.ValueOf = verifReflectValueOf",
+		"(reflect.Value).Call = verifReflectCall",
+		"(reflect.Value).IsNil = verifReflectIsNil",
+		"(reflect.Value).Interface = verifReflectInterface",
+		repoPkg + ".deserializeParams = verifDeserializeParams",
+	},
+	// HTTP handler scaffolding (harness/common/httpx.go)
+	"httpx": {
+		"(*" + repoPkg + ".Server).ProtocolHash = verifXProtocolHash",
+		"(*" + repoPkg + ".HttpServer).readHTTPBody = verifXReadBody",
+		repoPkg + ".buildHTTPCookies = verifXCookies",
+		"encoding/json.Marshal = verifJSONMarshal",
+		"time.Now = verifFixedNow",
 	},
 	// ideal-cryptography token algebra (harness/common/tokens.go)
 	"tokens": {
